@@ -19,18 +19,46 @@ pub struct GenCtx {
     /// permille probability that an optional part is present
     pub present_permille: u32,
     counter: u32,
+    /// how the entries of the part being generated are drawn (swarm style: most parts ordinary, some degenerate)
+    force: Force,
+    /// the next leaf is the first one of an entry (its innermost real part)
+    lead: bool,
     /// presence decisions taken, in order (part of the replayable description)
     pub presence: Vec<bool>,
     /// dynamic dimensions chosen, in order
     pub dims: Vec<usize>,
 }
 
+#[derive(Clone, Copy, PartialEq)]
+enum Force {
+    None,
+    /// every leaf of every entry is a zero (of either sign)
+    Zero,
+    /// every leaf is the same value
+    Same(f64),
+    /// the innermost real part of every entry is zero, the other leaves are ordinary ("0 + 3ε")
+    ZeroLead,
+}
+
 impl GenCtx {
     pub fn new(seed: u64, max_dim: usize, simple: bool, present_permille: u32) -> Self {
-        GenCtx { rng: Rng::new(seed), max_dim, simple, present_permille, counter: 0, presence: vec![], dims: vec![] }
+        GenCtx { rng: Rng::new(seed), max_dim, simple, present_permille, counter: 0, force: Force::None, lead: false, presence: vec![], dims: vec![] }
+    }
+    fn forced(&mut self) -> Option<f64> {
+        let lead = std::mem::replace(&mut self.lead, false);
+        match self.force {
+            Force::None => None,
+            Force::Zero => Some(if self.rng.chance(300) { -0.0 } else { 0.0 }),
+            Force::Same(v) => Some(v),
+            Force::ZeroLead if lead => Some(if self.rng.chance(300) { -0.0 } else { 0.0 }),
+            Force::ZeroLead => None,
+        }
     }
     fn f64(&mut self) -> f64 {
         self.counter += 1;
+        if let Some(v) = self.forced() {
+            return v;
+        }
         if self.simple {
             return self.counter as f64;
         }
@@ -64,6 +92,9 @@ impl GenCtx {
     }
     fn f32(&mut self) -> f32 {
         self.counter += 1;
+        if let Some(v) = self.forced() {
+            return v as f32;
+        }
         if self.simple {
             return self.counter as f32;
         }
@@ -165,18 +196,31 @@ where
         return (Derivative::none(), vec![]);
     }
     let (nr, nc) = (r.value(), c.value());
+    // most parts ordinary; some all-zero, all-equal, or with every entry's innermost real part zero
+    g.force = match g.rng.below(100) {
+        0..=7 => Force::Zero,
+        8..=13 => {
+            let v = [1.0, -1.0, 2.5, 1e30, 0.1][g.rng.below(5)]; // finite as f32 too
+            Force::Same(v)
+        }
+        14..=21 => Force::ZeroLead,
+        _ => Force::None,
+    };
     // generate in reading order: row by row
     let mut cells: Vec<Vec<Option<T>>> = Vec::new();
     let mut toks = Vec::new();
     for _i in 0..nr {
         let mut row = Vec::new();
         for _j in 0..nc {
+            g.lead = true;
             let (v, t) = T::gen(g);
             toks.extend(t);
             row.push(Some(v));
         }
         cells.push(row);
     }
+    g.force = Force::None;
+    g.lead = false;
     let m = OMatrix::<T, R, C>::from_fn_generic(r, c, |i, j| cells[i][j].take().unwrap());
     toks.push(sym(symbol));
     (Derivative::some(m), toks)
